@@ -242,6 +242,36 @@ def _select_rule(chk, prog):
                               "clause completing leaves that registration behind as a live-looking waiter" % op.callee)
     if n < 2:
         raise AnalysisBroken("cfun_channel_choice: only %d channel operations found" % n)
+    # an operation started for a clause may complete on the spot (a give meets a parked taker on an unbuffered channel,
+    # a take finds an item): then nothing will ever wake the selecting fiber for it.  So a *_with_lock call whose result
+    # is not looked at must not be followed by janet_await.
+    ops = [x for x in fn.nodes if x.k == "call" and (x.callee or "").endswith("_with_lock")]
+
+    def in_condition(x):
+        p_ = x.parent
+        while p_ is not None and p_.k in ("un", "cast", "bin"):
+            x, p_ = p_, p_.parent
+        return p_ is not None and p_.k in ("if", "cond", "while", "for", "do") and p_.kids[0] is x
+
+    def transfer(st, x):
+        if x.k == "call" and (x.callee or "").endswith("_with_lock"):
+            return st | {x.id} if not in_condition(x) else st
+        return st
+    IN, OUT = flow.forward(fn, frozenset(), transfer, lambda a, b: a | b)
+    byid = dict((x.id, x) for x in ops)
+    flagged = set()
+    for x, st in flow.states_at(fn, IN, transfer):
+        if x.k == "call" and x.callee == "janet_await":
+            flagged |= set(st)
+    for op in ops:
+        chk.instance(rule)
+        if op.id in flagged:
+            chk.violation(rule, "ev.c", fn.name, "%s:result" % op.callee, op.loc,
+                          "the result of %s is ignored and janet_await() is reached afterwards: when the operation completes on the "
+                          "spot (a give handed straight to a parked taker), the selecting fiber suspends although no registration "
+                          "remains that could wake it" % op.callee)
+        else:
+            chk.ok(rule, "%s at %s: result consumed (or the function returns) before any await" % (op.callee, op.loc))
 
 
 def _wakepass_rule(chk, prog):
